@@ -8,7 +8,8 @@
 (* format, flip, channel swap, sprite extraction by every index 0..count+1 against pixel files of       *)
 (* several lengths) is itself an ordinary success or error; proper prefixes are refused.               *)
 (***************************************************************************************************)
-EXTENDS Tileset, Prt
+EXTENDS Tileset, Prt, Mutate
+CONSTANTS Seed, NRand
 VARIABLES done
 SetBytes(img, off, bs) == [i \in 1..Len(img) |-> IF i > off /\ i <= off + Len(bs) THEN bs[i - off] ELSE img[i]]
 B(a, b, c, d) == <<a, b, c, d>>
@@ -133,5 +134,11 @@ Next == /\ ~done /\ done' = TRUE
                        PBytes(SetPart(SetPart(SetPart(parts, di, LE32(1024 + K)), hi, LE32(4 - K)), pi, parts[pi].b \o [i \in 1..K |-> 170])), "any", PixelFiles)
              /\ \A pv \in {0, 1, 2, 255, 65535} : Emit(<<"prt-palindex", pv>>, "prt", "img.pal", PBytes(SetPart(parts, IndexOf(parts, "img.pal", 2), LE16(pv))), "any", PixelFiles)
              /\ \A mb \in {0, 1, 2, 3, 127, 128, 129, 130, 255} : Emit(<<"prt-framemeta", mb>>, "prt", "frame.meta", PBytes(SetPart(parts, IndexOf(parts, "frame.meta", 1), <<mb, 5>>)), "any", PixelFiles)
+        /\ \A r \in 1..NRand :
+             /\ Emit(<<"bmp-random", Seed, r>>, "bmp", "random-bytes", Mutated(ImageWith(IF r % 2 = 0 THEN Bm(5, 2, 8, 256) ELSE Bm(9, -3, 1, 2), 0), Seed * 617 + r), "any", <<>>)
+             /\ Emit(<<"ts-random", Seed, r>>, "tileset", "random-bytes",
+                     LET img == EncodeCustom(TsPic(32))  hdr == Mutated(SubSeq(img, 1, 64), Seed * 619 + r) IN hdr \o SubSeq(img, Len(hdr) + 1, Len(img)), "any", <<>>)
+             /\ Emit(<<"prt-random", Seed, r>>, "prt", "random-bytes",
+                     LET img == PBytes(PrtParts(BaseImgs, 2))  tail == Mutated(SubSeq(img, 1069, Len(img)), Seed * 631 + r) IN SubSeq(img, 1, 1068) \o tail, "any", PixelFiles)
 Spec == Init /\ [][Next]_done
 ====
